@@ -1,1 +1,746 @@
+(* TV.Barriers.C20_proofs — lemmas for property C20. *)
 From TV.Lib Require Import Base.
+From Coq Require Import Sorted.
+From TV.Barriers Require Import Model.
+Open Scope N_scope.
+
+Section WithV.
+Variable V : Type.
+Notation state := (state V).
+Notation barrier := (barrier V).
+Notation ev := (ev V).
+Notation obs := (obs V).
+
+(* ------------------------------------------------------------------ *)
+(* registry well-formedness: ids are below the counter and distinct    *)
+
+Record RegOk (s : state) : Prop := {
+  rk_lt : forall x, In x (regs s) -> b_id x < nbid s;
+  rk_nd : NoDup (map b_id (regs s));
+  hk_lt : forall h, In h (handles s) -> h_id h < nhid s;
+  hk_nd : NoDup (map h_id (handles s)) }.
+
+Lemma regok_init : RegOk (init V).
+Proof. constructor; cbn; intros; try contradiction; constructor. Qed.
+
+Lemma upd_fifo_ids b f (l : list barrier) : map b_id (upd_fifo V b f l) = map b_id l.
+Proof. induction l as [|x l IH]; cbn; [reflexivity|]. destruct (b_id x =? b); cbn; congruence. Qed.
+
+Lemma upd_fifo_in b f (l : list barrier) y :
+  In y (upd_fifo V b f l) -> exists x, In x l /\ b_id y = b_id x /\ b_cond y = b_cond x /\ b_react y = b_react x.
+Proof.
+  induction l as [|x l IH]; cbn; [contradiction|]. destruct (b_id x =? b); cbn.
+  - intros [<-|H]; [exists x; cbn; auto|exists y; cbn; auto].
+  - intros [<-|H]; [exists x; cbn; auto|]. destruct (IH H) as (z & Hz & E). exists z; cbn; auto.
+Qed.
+
+Lemma filter_ids_nodup {X} (f : X -> N) (p : X -> bool) l : NoDup (map f l) -> NoDup (map f (filter p l)).
+Proof.
+  induction l as [|x l IH]; cbn; intros H; [constructor|]. inversion H as [|? ? Hn Hd]; subst.
+  destruct (p x); cbn; [constructor|]; auto.
+  intro Hin. apply Hn. apply in_map_iff in Hin as (y & E & Hy). apply filter_In in Hy as [Hy _].
+  rewrite <- E. now apply in_map.
+Qed.
+
+Lemma regok_same s s' :
+  map b_id (regs s') = map b_id (regs s) -> nbid s' = nbid s -> handles s' = handles s -> nhid s' = nhid s ->
+  RegOk s -> RegOk s'.
+Proof.
+  intros E1 E2 E3 E4 [A B C D]. constructor; rewrite ?E1, ?E2, ?E3, ?E4; auto.
+  intros x Hx. apply (in_map b_id) in Hx. rewrite E1 in Hx. apply in_map_iff in Hx as (y & E & Hy).
+  rewrite <- E. auto.
+Qed.
+
+Lemma step_regok s e : RegOk s -> RegOk (fst (step V s e)).
+Proof.
+  intros OK. pose proof OK as [A B C D]. destruct e as [r c|src v|src v|b|h|b]; cbn.
+  - constructor; cbn; auto.
+    + intros x Hx. apply in_app_or in Hx as [Hx|[<-|[]]]; [apply A in Hx; lia|cbn; lia].
+    + rewrite map_app. cbn. apply NoDup_app_iff. split; [exact B|]. split; [repeat constructor; auto|].
+      intros y Hy [<-|[]]. apply in_map_iff in Hy as (x & E & Hx). apply A in Hx. lia.
+  - destruct (sget (srcs s) src); cbn; try exact OK.
+    destruct (first_match V (regs s) v) as [x|]; cbn; [|eapply regok_same; [| | | |exact OK]; reflexivity].
+    destruct (b_react x); cbn; (eapply regok_same; [| | | |exact OK]; cbn; rewrite ?upd_fifo_ids; reflexivity).
+  - destruct (sget (srcs s) src); cbn; try exact OK.
+    destruct (first_match V (regs s) v) as [x|]; cbn; [|eapply regok_same; [| | | |exact OK]; reflexivity].
+    destruct (b_react x); cbn; (eapply regok_same; [| | | |exact OK]; cbn; rewrite ?upd_fifo_ids; reflexivity).
+  - destruct (get_barrier V b (regs s)) as [x|]; cbn; [|exact OK].
+    destruct (b_fifo x) as [|e rest]; cbn; [exact OK|]. constructor; cbn.
+    + intros y Hy. apply upd_fifo_in in Hy as (z & Hz & E & _). rewrite E. auto.
+    + rewrite upd_fifo_ids. exact B.
+    + intros y Hy. apply in_app_or in Hy as [Hy|[<-|[]]]; [apply C in Hy; lia|cbn; lia].
+    + rewrite map_app. cbn. apply NoDup_app_iff. split; [exact D|]. split; [repeat constructor; auto|].
+      intros y Hy [<-|[]]. apply in_map_iff in Hy as (x' & E & Hx). apply C in Hx. lia.
+  - destruct (get_handle V h (handles s)) as [x|]; cbn; [|exact OK]. constructor; cbn; auto.
+    + intros y Hy. apply filter_In in Hy as [Hy _]. auto.
+    + now apply filter_ids_nodup.
+  - destruct (get_barrier V b (regs s)) as [x|]; cbn; [|exact OK]. constructor; cbn; auto.
+    + intros y Hy. apply filter_In in Hy as [Hy _]. auto.
+    + now apply filter_ids_nodup.
+Qed.
+
+Definition final (s : state) (es : list ev) : state := fst (run V s es).
+
+Lemma final_cons s e es : final s (e :: es) = final (fst (step V s e)) es.
+Proof.
+  unfold final. cbn. destruct (step V s e) as [s1 o]. cbn. destruct (run V s1 es). reflexivity.
+Qed.
+
+Lemma run_regok es : forall s, RegOk s -> RegOk (final s es).
+Proof.
+  induction es as [|e es IH]; intros s H; [exact H|]. rewrite final_cons. apply IH. now apply step_regok.
+Qed.
+
+(* ------------------------------------------------------------------ *)
+(* lookups                                                              *)
+
+Lemma first_match_in (l : list barrier) v x : first_match V l v = Some x -> In x l /\ b_cond x v = true.
+Proof.
+  induction l as [|y l IH]; cbn; [discriminate|]. destruct (b_cond y v) eqn:E.
+  - intros H. inversion H; subst. auto.
+  - intros H. destruct (IH H). auto.
+Qed.
+
+Lemma get_barrier_in (l : list barrier) b x : get_barrier V b l = Some x -> In x l /\ b_id x = b.
+Proof.
+  induction l as [|y l IH]; cbn; [discriminate|]. destruct (b_id y =? b) eqn:E.
+  - intros H. inversion H; subst. apply N.eqb_eq in E. auto.
+  - intros H. destruct (IH H). auto.
+Qed.
+
+Lemma get_barrier_none (l : list barrier) b : get_barrier V b l = None -> forall x, In x l -> b_id x <> b.
+Proof.
+  induction l as [|y l IH]; cbn; [intros _ x []|]. destruct (b_id y =? b) eqn:E; [discriminate|].
+  intros H x [<-|Hx]; [now apply N.eqb_neq|auto].
+Qed.
+
+Lemma get_barrier_unique (l : list barrier) x :
+  NoDup (map b_id l) -> In x l -> get_barrier V (b_id x) l = Some x.
+Proof.
+  induction l as [|y l IH]; cbn; intros ND Hin; [contradiction|]. inversion ND as [|? ? Hn Hd]; subst.
+  destruct Hin as [->|Hin]; [now rewrite N.eqb_refl|].
+  destruct (b_id y =? b_id x) eqn:E; [|auto].
+  apply N.eqb_eq in E. exfalso. apply Hn. rewrite E. now apply in_map.
+Qed.
+
+Lemma get_barrier_upd b b' f (l : list barrier) :
+  get_barrier V b' (upd_fifo V b f l) =
+  match get_barrier V b' l with
+  | Some x => Some (if b =? b' then set_fifo V x (f (b_fifo x)) else x)
+  | None => None
+  end.
+Proof.
+  induction l as [|x l IH]; cbn; [reflexivity|].
+  destruct (b_id x =? b) eqn:E1; cbn.
+  - apply N.eqb_eq in E1. subst. destruct (b_id x =? b') eqn:E2; [reflexivity|].
+    destruct (get_barrier V b' l); reflexivity.
+  - destruct (b_id x =? b') eqn:E2.
+    + apply N.eqb_eq in E2. subst. rewrite N.eqb_sym, E1. reflexivity.
+    + exact IH.
+Qed.
+
+Lemma get_barrier_app b (l : list barrier) y :
+  get_barrier V b (l ++ [y]) = match get_barrier V b l with Some x => Some x | None => if b_id y =? b then Some y else None end.
+Proof. induction l as [|x l IH]; cbn; [reflexivity|]. destruct (b_id x =? b); auto. Qed.
+
+Lemma get_barrier_filter b b' (l : list barrier) :
+  get_barrier V b' (filter (fun y => negb (b_id y =? b)) l) = if b =? b' then None else get_barrier V b' l.
+Proof.
+  induction l as [|x l IH]; cbn; [now destruct (b =? b')|].
+  destruct (b_id x =? b) eqn:E1; cbn.
+  - apply N.eqb_eq in E1. subst. rewrite IH. destruct (b_id x =? b'); reflexivity.
+  - rewrite IH. destruct (b_id x =? b') eqn:E2; [|reflexivity].
+    apply N.eqb_eq in E2. subst. now rewrite N.eqb_sym, E1.
+Qed.
+
+Lemma sget_sset l a b x : sget (sset l a x) b = if a =? b then x else sget l b.
+Proof.
+  unfold sset. cbn. destruct (a =? b) eqn:E; [reflexivity|].
+  induction l as [|[k y] l IH]; cbn; [reflexivity|].
+  destruct (k =? a) eqn:E1; cbn.
+  - apply N.eqb_eq in E1. subst. now rewrite E.
+  - destruct (k =? b); auto.
+Qed.
+
+Lemma sget_release_all rs : forall l src,
+  sget (release_all l rs) src = if existsb (N.eqb src) rs then Running else sget l src.
+Proof.
+  induction rs as [|r rs IH]; intros l src; cbn; [reflexivity|].
+  unfold release_all in *. cbn. rewrite IH, sget_sset.
+  destruct (existsb (N.eqb src) rs); [now rewrite orb_true_r|]. rewrite orb_false_r.
+  rewrite (N.eqb_sym r src). destruct (src =? r); reflexivity.
+Qed.
+
+(* ------------------------------------------------------------------ *)
+(* single-step facts: Noop, Panic, no match, Suspend                    *)
+
+Definition is_trigger (e : ev) (src : N) (v : V) : Prop := e = Trigger src v \/ e = TriggerNoop src v.
+
+Lemma noop_lemma s src v b e :
+  is_trigger e src v -> sget (srcs s) src = Running ->
+  first_match V (regs s) v = Some b -> b_react b = Noop ->
+  let s' := fst (step V s e) in
+  srcs s' = srcs s /\ sget (srcs s') src = Running /\ handles s' = handles s /\
+  regs s' = upd_fifo V (b_id b) (fun f => f ++ [{| e_val := v; e_rel := None; e_tid := ntid s |}]) (regs s).
+Proof.
+  intros [->| ->] R M N; cbn -[sset sget rels]; rewrite R, M, N; cbn -[sset sget rels]; auto.
+Qed.
+
+Lemma panic_lemma s src v b e :
+  is_trigger e src v -> sget (srcs s) src = Running ->
+  first_match V (regs s) v = Some b ->
+  (b_react b = Panic \/ (b_react b = Suspend /\ e = TriggerNoop src v)) ->
+  let s' := fst (step V s e) in
+  sget (srcs s') src = Panicked /\ regs s' = regs s /\ handles s' = handles s /\
+  (forall k, k <> src -> sget (srcs s') k = sget (srcs s) k).
+Proof.
+  intros T R M [P|[P ->]].
+  - destruct T as [->| ->]; cbn -[sset sget rels]; rewrite R, M, P; cbn -[sset sget rels]; rewrite sget_sset, N.eqb_refl; repeat split; auto;
+      intros k Hk; rewrite sget_sset; destruct (src =? k) eqn:E; auto; apply N.eqb_eq in E; congruence.
+  - cbn -[sset sget rels]. rewrite R, M, P. cbn -[sset sget rels]. rewrite sget_sset, N.eqb_refl. repeat split; auto.
+    intros k Hk. rewrite sget_sset. destruct (src =? k) eqn:E; auto. apply N.eqb_eq in E; congruence.
+Qed.
+
+Lemma no_match_lemma s src v e :
+  is_trigger e src v -> first_match V (regs s) v = None ->
+  let s' := fst (step V s e) in
+  regs s' = regs s /\ srcs s' = srcs s /\ handles s' = handles s.
+Proof.
+  intros [->| ->] M; cbn -[sset sget rels]; rewrite M; destruct (sget (srcs s) src); cbn -[sset sget rels]; auto.
+Qed.
+
+Lemma suspend_lemma s src v b :
+  sget (srcs s) src = Running -> first_match V (regs s) v = Some b -> b_react b = Suspend ->
+  let s' := fst (step V s (Trigger src v)) in
+  sget (srcs s') src = Suspended /\
+  (forall k, k <> src -> sget (srcs s') k = sget (srcs s) k) /\
+  handles s' = handles s /\
+  regs s' = upd_fifo V (b_id b) (fun f => f ++ [{| e_val := v; e_rel := Some src; e_tid := ntid s |}]) (regs s).
+Proof.
+  intros R M S. cbn -[sset sget rels]. rewrite R, M, S. cbn -[sset sget rels]. rewrite sget_sset, N.eqb_refl. repeat split; auto.
+  intros k Hk. rewrite sget_sset. destruct (src =? k) eqn:E; auto. apply N.eqb_eq in E; congruence.
+Qed.
+
+(* which events release a suspended source *)
+Definition releases (s : state) (src : N) (e : ev) : bool :=
+  match e with
+  | DropHandle h => match get_handle V h (handles s) with
+                    | Some x => match h_rel x with Some k => k =? src | None => false end
+                    | None => false end
+  | DropBarrier b => match get_barrier V b (regs s) with
+                     | Some x => existsb (N.eqb src) (rels V (b_fifo x))
+                     | None => false end
+  | _ => false
+  end.
+
+Lemma stays_suspended s src e :
+  sget (srcs s) src = Suspended -> releases s src e = false ->
+  sget (srcs (fst (step V s e))) src = Suspended.
+Proof.
+  intros S R. destruct e as [r c|k v|k v|b|h|b]; cbn -[sset sget rels] in *.
+  - exact S.
+  - destruct (sget (srcs s) k) eqn:K; try exact S.
+    destruct (first_match V (regs s) v) as [x|]; [|exact S].
+    assert (k <> src) by (intro; subst; congruence).
+    destruct (b_react x); cbn -[sset sget rels]; try exact S; rewrite sget_sset; destruct (k =? src) eqn:E; auto;
+      apply N.eqb_eq in E; congruence.
+  - destruct (sget (srcs s) k) eqn:K; try exact S.
+    destruct (first_match V (regs s) v) as [x|]; [|exact S].
+    assert (k <> src) by (intro; subst; congruence).
+    destruct (b_react x); cbn -[sset sget rels]; try exact S; rewrite sget_sset; destruct (k =? src) eqn:E; auto;
+      apply N.eqb_eq in E; congruence.
+  - destruct (get_barrier V b (regs s)) as [x|]; [|exact S]. destruct (b_fifo x); exact S.
+  - destruct (get_handle V h (handles s)) as [x|]; [|exact S]. cbn -[sset sget rels].
+    destruct (h_rel x) as [k|]; [|exact S]. rewrite sget_sset, R. exact S.
+  - destruct (get_barrier V b (regs s)) as [x|]; [|exact S]. cbn -[sset sget rels]. now rewrite sget_release_all, R.
+Qed.
+
+Lemma release_runs s src e :
+  releases s src e = true -> sget (srcs (fst (step V s e))) src = Running.
+Proof.
+  intros R. destruct e as [r c|k v|k v|b|h|b]; cbn -[sset sget rels] in *; try discriminate.
+  - destruct (get_handle V h (handles s)) as [x|]; [|discriminate]. cbn -[sset sget rels].
+    destruct (h_rel x) as [k|]; [|discriminate]. now rewrite sget_sset, R.
+  - destruct (get_barrier V b (regs s)) as [x|]; [|discriminate]. cbn -[sset sget rels]. now rewrite sget_release_all, R.
+Qed.
+
+(* ------------------------------------------------------------------ *)
+(* a suspended source always has a release token in a live barrier's    *)
+(* queue or in a handle held by the test                                *)
+
+Definition hrels (hs : list (handle V)) : list N :=
+  flat_map (fun h => match h_rel h with Some k => [k] | None => [] end) hs.
+Definition tokens (s : state) : list N := flat_map (fun x => rels V (b_fifo x)) (regs s) ++ hrels (handles s).
+Definition TokInv (s : state) : Prop := forall src, sget (srcs s) src = Suspended -> In src (tokens s).
+
+Lemma rels_app f g : rels V (f ++ g) = rels V f ++ rels V g.
+Proof. unfold rels. apply flat_map_app. Qed.
+
+Lemma in_tokens_upd_app b e (l : list barrier) k :
+  In k (flat_map (fun x => rels V (b_fifo x)) l) ->
+  In k (flat_map (fun x => rels V (b_fifo x)) (upd_fifo V b (fun f => f ++ [e]) l)).
+Proof.
+  induction l as [|x l IH]; cbn -[sset sget rels]; [auto|]. intros H. apply in_app_or in H.
+  destruct (b_id x =? b); cbn -[sset sget rels]; apply in_or_app.
+  - destruct H as [H|H]; [left; rewrite rels_app; apply in_or_app; now left|now right].
+  - destruct H as [H|H]; [now left|right; auto].
+Qed.
+
+Lemma in_tokens_upd_new b e src (l : list barrier) x :
+  get_barrier V b l = Some x -> e_rel e = Some src ->
+  In src (flat_map (fun x => rels V (b_fifo x)) (upd_fifo V b (fun f => f ++ [e]) l)).
+Proof.
+  induction l as [|y l IH]; cbn -[sset sget rels]; [discriminate|]. destruct (b_id y =? b); cbn -[sset sget rels]; intros G R.
+  - apply in_or_app. left. rewrite rels_app. apply in_or_app. right. unfold rels. cbn -[sset sget rels]. rewrite R. now left.
+  - apply in_or_app. right. auto.
+Qed.
+
+Lemma in_tokens_pop b e rest (l : list barrier) x k :
+  get_barrier V b l = Some x -> b_fifo x = e :: rest ->
+  In k (flat_map (fun x => rels V (b_fifo x)) l) ->
+  In k (flat_map (fun x => rels V (b_fifo x)) (upd_fifo V b (fun _ => rest) l)) \/ e_rel e = Some k.
+Proof.
+  induction l as [|y l IH]; cbn -[sset sget rels]; [discriminate|]. destruct (b_id y =? b); cbn -[sset sget rels]; intros G F H.
+  - inversion G; subst. rewrite F in H. apply in_app_or in H as [H|H].
+    + unfold rels in H. cbn -[sset sget rels] in H. apply in_app_or in H as [H|H].
+      * destruct (e_rel e) as [j|]; [|contradiction]. destruct H as [->|[]]. now right.
+      * left. apply in_or_app. now left.
+    + left. apply in_or_app. now right.
+  - apply in_app_or in H as [H|H]; [left; apply in_or_app; now left|].
+    destruct (IH G F H) as [H'|H']; [left; apply in_or_app; now right|now right].
+Qed.
+
+Lemma in_hrels_app hs h k : In k (hrels (hs ++ [h])) <-> In k (hrels hs) \/ h_rel h = Some k.
+Proof.
+  unfold hrels. rewrite flat_map_app. cbn -[sset sget rels]. rewrite app_nil_r. split.
+  - intros H. apply in_app_or in H as [H|H]; [now left|]. destruct (h_rel h) as [j|]; [|contradiction].
+    destruct H as [->|[]]. now right.
+  - intros [H|H]; apply in_or_app; [now left|right]. rewrite H. now left.
+Qed.
+
+Lemma filter_keep_all {X} (p : X -> bool) l : (forall z, In z l -> p z = true) -> filter p l = l.
+Proof.
+  induction l as [|x l IH]; cbn -[sset sget rels]; intros H; [reflexivity|]. rewrite (H x (or_introl eq_refl)). f_equal.
+  apply IH. intros z Hz. apply H. now right.
+Qed.
+
+Lemma in_hrels_filter hs h x k :
+  NoDup (map h_id hs) -> get_handle V h hs = Some x -> In k (hrels hs) ->
+  In k (hrels (filter (fun y => negb (h_id y =? h)) hs)) \/ h_rel x = Some k.
+Proof.
+  induction hs as [|y hs IH]; cbn -[sset sget rels]; [discriminate|]. intros ND G H. inversion ND as [|? ? Hn Hd]; subst.
+  destruct (h_id y =? h) eqn:E; cbn -[sset sget rels].
+  - inversion G; subst. apply N.eqb_eq in E. apply in_app_or in H as [H|H].
+    + destruct (h_rel x) as [j|]; [|contradiction]. destruct H as [->|[]]. now right.
+    + left. rewrite filter_keep_all; [exact H|]. intros z Hz. apply negb_true_iff, N.eqb_neq.
+      intro Ez. apply Hn. rewrite E, <- Ez. now apply in_map.
+  - apply in_app_or in H as [H|H]; [left; apply in_or_app; now left|].
+    destruct (IH Hd G H) as [H'|H']; [left; apply in_or_app; now right|now right].
+Qed.
+
+Lemma in_tokens_filter b (l : list barrier) x k :
+  NoDup (map b_id l) -> get_barrier V b l = Some x ->
+  In k (flat_map (fun x => rels V (b_fifo x)) l) ->
+  In k (flat_map (fun x => rels V (b_fifo x)) (filter (fun y => negb (b_id y =? b)) l)) \/ In k (rels V (b_fifo x)).
+Proof.
+  induction l as [|y l IH]; cbn -[sset sget rels]; [discriminate|]. intros ND G H. inversion ND as [|? ? Hn Hd]; subst.
+  destruct (b_id y =? b) eqn:E; cbn -[sset sget rels].
+  - inversion G; subst. apply N.eqb_eq in E. apply in_app_or in H as [H|H]; [now right|].
+    left. rewrite filter_keep_all; [exact H|]. intros z Hz. apply negb_true_iff, N.eqb_neq.
+    intro Ez. apply Hn. rewrite E, <- Ez. now apply in_map.
+  - apply in_app_or in H as [H|H]; [left; apply in_or_app; now left|].
+    destruct (IH Hd G H) as [H'|H']; [left; apply in_or_app; now right|now right].
+Qed.
+
+Lemma existsb_eqb_in k l : existsb (N.eqb k) l = true <-> In k l.
+Proof.
+  rewrite existsb_exists. split.
+  - intros (x & Hx & E). apply N.eqb_eq in E. now subst.
+  - intros H. exists k. split; [exact H|apply N.eqb_refl].
+Qed.
+
+Lemma step_tokinv s e : RegOk s -> TokInv s -> TokInv (fst (step V s e)).
+Proof.
+  intros OK T. unfold TokInv, tokens in *. destruct e as [r c|k v|k v|b|h|b]; cbn -[sset sget rels].
+  - intros src S. apply T in S. apply in_app_or in S as [S|S]; apply in_or_app; [left|now right].
+    rewrite flat_map_app. apply in_or_app. now left.
+  - destruct (sget (srcs s) k) eqn:K; try exact T.
+    destruct (first_match V (regs s) v) as [x|] eqn:M; [|exact T].
+    apply first_match_in in M as [Mi _].
+    pose proof (get_barrier_unique _ _ (rk_nd _ OK) Mi) as G.
+    destruct (b_react x); cbn -[sset sget rels]; intros src S.
+    + apply T in S. apply in_app_or in S as [S|S]; apply in_or_app; [left; now apply in_tokens_upd_app|now right].
+    + rewrite sget_sset in S. destruct (k =? src) eqn:E.
+      * apply N.eqb_eq in E. subst. apply in_or_app. left. eapply in_tokens_upd_new; eauto.
+      * apply T in S. apply in_app_or in S as [S|S]; apply in_or_app; [left; now apply in_tokens_upd_app|now right].
+    + rewrite sget_sset in S. destruct (k =? src); [discriminate|]. now apply T.
+  - destruct (sget (srcs s) k) eqn:K; try exact T.
+    destruct (first_match V (regs s) v) as [x|] eqn:M; [|exact T].
+    destruct (b_react x); cbn -[sset sget rels]; intros src S.
+    + apply T in S. apply in_app_or in S as [S|S]; apply in_or_app; [left; now apply in_tokens_upd_app|now right].
+    + rewrite sget_sset in S. destruct (k =? src); [discriminate|]. now apply T.
+    + rewrite sget_sset in S. destruct (k =? src); [discriminate|]. now apply T.
+  - destruct (get_barrier V b (regs s)) as [x|] eqn:G; [|exact T].
+    destruct (b_fifo x) as [|e rest] eqn:F; [exact T|]. cbn -[sset sget rels]. intros src S. apply T in S.
+    apply in_or_app. apply in_app_or in S as [S|S].
+    + destruct (in_tokens_pop _ _ _ _ _ _ G F S) as [H|H]; [now left|]. right. apply in_hrels_app. now right.
+    + right. apply in_hrels_app. now left.
+  - destruct (get_handle V h (handles s)) as [x|] eqn:G; [|exact T]. cbn -[sset sget rels]. intros src S.
+    assert (S0 : sget (srcs s) src = Suspended /\ h_rel x <> Some src).
+    { destruct (h_rel x) as [j|]; [|split; [exact S|discriminate]]. rewrite sget_sset in S.
+      destruct (j =? src) eqn:E; [discriminate|]. split; [exact S|]. apply N.eqb_neq in E. congruence. }
+    destruct S0 as [S0 Hne]. apply T in S0. apply in_or_app. apply in_app_or in S0 as [S0|S0]; [now left|].
+    destruct (in_hrels_filter _ _ _ _ (hk_nd _ OK) G S0) as [H|H]; [now right|contradiction].
+  - destruct (get_barrier V b (regs s)) as [x|] eqn:G; [|exact T]. cbn -[sset sget rels]. intros src S.
+    rewrite sget_release_all in S. destruct (existsb (N.eqb src) (rels V (b_fifo x))) eqn:Ex; [discriminate|].
+    apply T in S. apply in_or_app. apply in_app_or in S as [S|S]; [|now right].
+    destruct (in_tokens_filter _ _ _ _ (rk_nd _ OK) G S) as [H|H]; [now left|].
+    apply existsb_eqb_in in H. congruence.
+Qed.
+
+Lemma run_tokinv es : forall s, RegOk s -> TokInv s -> TokInv (final s es).
+Proof.
+  induction es as [|e es IH]; intros s OK T; [exact T|]. rewrite final_cons.
+  apply IH; [now apply step_regok|now apply step_tokinv].
+Qed.
+
+Lemma tokinv_init : TokInv (init V).
+Proof. intros src S. cbn -[sset sget rels] in S. discriminate. Qed.
+
+Lemma get_handle_unique (l : list (handle V)) x :
+  NoDup (map h_id l) -> In x l -> get_handle V (h_id x) l = Some x.
+Proof.
+  induction l as [|y l IH]; cbn -[sset sget rels]; intros ND Hin; [contradiction|]. inversion ND as [|? ? Hn Hd]; subst.
+  destruct Hin as [->|Hin]; [now rewrite N.eqb_refl|].
+  destruct (h_id y =? h_id x) eqn:E; [|auto].
+  apply N.eqb_eq in E. exfalso. apply Hn. rewrite E. now apply in_map.
+Qed.
+
+(* a token can always be used: some DropHandle / DropBarrier releases the source *)
+Lemma token_usable s src : RegOk s -> In src (tokens s) -> exists e, releases s src e = true.
+Proof.
+  intros OK H. unfold tokens in H. apply in_app_or in H as [H|H].
+  - apply in_flat_map in H as (x & Hx & Hr). exists (DropBarrier (b_id x)). cbn -[sset sget rels].
+    rewrite (get_barrier_unique _ _ (rk_nd _ OK) Hx). now apply existsb_eqb_in.
+  - unfold hrels in H. apply in_flat_map in H as (x & Hx & Hr). exists (DropHandle (h_id x)). cbn -[sset sget rels].
+    rewrite (get_handle_unique _ _ (hk_nd _ OK) Hx). destruct (h_rel x) as [j|]; [|contradiction].
+    destruct Hr as [->|[]]. apply N.eqb_refl.
+Qed.
+
+
+(* ------------------------------------------------------------------ *)
+(* reporting: exactly once, to the earliest live match, in trigger order *)
+
+(* The specification side is computed from the API calls alone: the list of
+   live barriers (id, condition, reaction) in creation order. *)
+Definition binfo : Type := N * (V -> bool) * reaction.
+Definition info (x : barrier) : binfo := (b_id x, b_cond x, b_react x).
+Fixpoint spec_match (lv : list binfo) (v : V) : option (N * reaction) :=
+  match lv with
+  | [] => None
+  | (b, c, r) :: t => if c v then Some (b, r) else spec_match t v
+  end.
+Definition lv_drop (b : N) (lv : list binfo) : list binfo := filter (fun x => negb (fst (fst x) =? b)) lv.
+(* the barrier a trigger call is to be reported to *)
+Definition dest (lv : list binfo) (noop_call : bool) (v : V) : option N :=
+  match spec_match lv v with
+  | Some (b, Noop) => Some b
+  | Some (b, Suspend) => if noop_call then None else Some b
+  | _ => None
+  end.
+Definition hit (b : N) (d : option N) (tid : N) (v : V) : list (N * V) :=
+  match d with Some b' => if b' =? b then [(tid, v)] else [] | None => [] end.
+
+Fixpoint expect (b : N) (lv : list binfo) (nb : N) (eos : list (ev * obs)) : list (N * V) :=
+  match eos with
+  | [] => []
+  | (e, o) :: t =>
+      match e, o with
+      | Build r c, _ => expect b (lv ++ [(nb, c, r)]) (nb + 1) t
+      | DropBarrier x, _ => expect b (lv_drop x lv) nb t
+      | Trigger _ v, OTrig tid => hit b (dest lv false v) tid v ++ expect b lv nb t
+      | TriggerNoop _ v, OTrig tid => hit b (dest lv true v) tid v ++ expect b lv nb t
+      | _, _ => expect b lv nb t
+      end
+  end.
+
+Fixpoint waited (b : N) (eos : list (ev * obs)) : list (N * V) :=
+  match eos with
+  | [] => []
+  | (Wait b', OWait (Some (_, v, tid))) :: t => (if b' =? b then [(tid, v)] else []) ++ waited b t
+  | _ :: t => waited b t
+  end.
+
+Definition tv (e : entry V) : N * V := (e_tid e, e_val e).
+Definition fifo_l (b : N) (l : list barrier) : list (N * V) :=
+  match get_barrier V b l with Some x => map tv (b_fifo x) | None => [] end.
+
+Lemma first_match_spec (l : list barrier) v :
+  spec_match (map info l) v =
+  match first_match V l v with Some x => Some (b_id x, b_react x) | None => None end.
+Proof.
+  induction l as [|x l IH]; cbn; [reflexivity|]. destruct (b_cond x v); [reflexivity|exact IH].
+Qed.
+
+Lemma spec_match_in lv v b r : spec_match lv v = Some (b, r) -> In b (map (fun x => fst (fst x)) lv).
+Proof.
+  induction lv as [|[[b' c] r'] lv IH]; cbn; [discriminate|]. destruct (c v).
+  - intros H. inversion H; subst. now left.
+  - intros H. right. auto.
+Qed.
+
+Lemma upd_fifo_info b f (l : list barrier) : map info (upd_fifo V b f l) = map info l.
+Proof. induction l as [|x l IH]; cbn; [reflexivity|]. destruct (b_id x =? b); cbn; [reflexivity|now rewrite IH]. Qed.
+
+Lemma info_ids (l : list barrier) : map (fun x => fst (fst x)) (map info l) = map b_id l.
+Proof. rewrite map_map. reflexivity. Qed.
+
+Lemma lv_drop_info b (l : list barrier) :
+  lv_drop b (map info l) = map info (filter (fun y => negb (b_id y =? b)) l).
+Proof.
+  unfold lv_drop. induction l as [|x l IH]; cbn; [reflexivity|]. destruct (b_id x =? b); cbn; [exact IH|now rewrite IH].
+Qed.
+
+Lemma expect_dead b eos : forall lv nb,
+  ~ In b (map (fun x => fst (fst x)) lv) -> b < nb -> expect b lv nb eos = [].
+Proof.
+  induction eos as [|[e o] t IH]; intros lv nb Hn Hb; cbn; [reflexivity|].
+  assert (Hit : forall c v tid, hit b (dest lv c v) tid v = []).
+  { intros c v tid. unfold hit, dest. destruct (spec_match lv v) as [[b' r]|] eqn:M; [|reflexivity].
+    apply spec_match_in in M.
+    assert (b' =? b = false) by (apply N.eqb_neq; intro; subst; contradiction).
+    destruct r; [now rewrite H| |reflexivity]. destruct c; [reflexivity|now rewrite H]. }
+  destruct e as [r c|k v|k v|b'|h|b']; try (destruct o; auto; rewrite Hit; cbn; auto); auto.
+  - apply IH; [|lia]. rewrite map_app. cbn. intro H. apply in_app_or in H as [H|[H|[]]]; [contradiction|lia].
+  - apply IH; [|exact Hb]. intro H. apply Hn. unfold lv_drop in H.
+    apply in_map_iff in H as (x & E & Hx). apply filter_In in Hx as [Hx _]. apply in_map_iff. eauto.
+Qed.
+
+Lemma step_dead b s e :
+  b < nbid s -> get_barrier V b (regs s) = None ->
+  b < nbid (fst (step V s e)) /\ get_barrier V b (regs (fst (step V s e))) = None.
+Proof.
+  intros L G. destruct e as [r c|k v|k v|b'|h|b']; cbn -[sset sget rels].
+  - split; [lia|]. rewrite get_barrier_app, G. cbn. destruct (nbid s =? b) eqn:E; [|reflexivity]. apply N.eqb_eq in E. lia.
+  - destruct (sget (srcs s) k); cbn -[sset sget rels]; auto.
+    destruct (first_match V (regs s) v) as [x|]; cbn -[sset sget rels]; auto.
+    destruct (b_react x); cbn -[sset sget rels]; auto; rewrite get_barrier_upd, G; auto.
+  - destruct (sget (srcs s) k); cbn -[sset sget rels]; auto.
+    destruct (first_match V (regs s) v) as [x|]; cbn -[sset sget rels]; auto.
+    destruct (b_react x); cbn -[sset sget rels]; auto; rewrite get_barrier_upd, G; auto.
+  - destruct (get_barrier V b' (regs s)) as [x|]; cbn -[sset sget rels]; auto.
+    destruct (b_fifo x); cbn -[sset sget rels]; auto. rewrite get_barrier_upd, G; auto.
+  - destruct (get_handle V h (handles s)); cbn -[sset sget rels]; auto.
+  - destruct (get_barrier V b' (regs s)) as [x|]; cbn -[sset sget rels]; auto.
+    rewrite get_barrier_filter, G. now destruct (b' =? b).
+Qed.
+
+Lemma dead_stays b es : forall s,
+  b < nbid s -> get_barrier V b (regs s) = None -> get_barrier V b (regs (final s es)) = None.
+Proof.
+  induction es as [|e es IH]; intros s L G; [exact G|]. rewrite final_cons.
+  destruct (step_dead b s e L G). now apply IH.
+Qed.
+
+Lemma fifo_l_upd_app b0 e (l : list barrier) b :
+  (exists x, In x l /\ b_id x = b0) ->
+  fifo_l b (upd_fifo V b0 (fun f => f ++ [e]) l) = fifo_l b l ++ (if b0 =? b then [tv e] else []).
+Proof.
+  intros (x & Hx & Ex). unfold fifo_l. rewrite get_barrier_upd.
+  destruct (get_barrier V b l) as [y|] eqn:G.
+  - destruct (b0 =? b); cbn; [now rewrite map_app|now rewrite app_nil_r].
+  - destruct (b0 =? b) eqn:E; [|reflexivity]. apply N.eqb_eq in E. subst.
+    exfalso. exact (get_barrier_none _ _ G x Hx eq_refl).
+Qed.
+
+Lemma run_cons s e es :
+  run V s (e :: es) = (final (fst (step V s e)) es, snd (step V s e) :: snd (run V (fst (step V s e)) es)).
+Proof.
+  unfold final. cbn. destruct (step V s e) as [s1 o]. cbn. destruct (run V s1 es). reflexivity.
+Qed.
+
+Lemma report_main es : forall s, RegOk s ->
+  forall b, exists q,
+    waited b (combine es (snd (run V s es))) ++ q =
+      fifo_l b (regs s) ++ expect b (map info (regs s)) (nbid s) (combine es (snd (run V s es))) /\
+    (forall x, get_barrier V b (regs (final s es)) = Some x -> q = map tv (b_fifo x)).
+Proof.
+  induction es as [|e es IH]; intros s OK b.
+  - exists (fifo_l b (regs s)). cbn. rewrite app_nil_r. split; [reflexivity|].
+    intros x G. unfold fifo_l, final in *. cbn in G. now rewrite G.
+  - rewrite run_cons, final_cons. cbn [snd combine].
+    pose proof (step_regok s e OK) as OK1.
+    destruct (IH (fst (step V s e)) OK1 b) as (q' & Eq & Fin).
+    remember (step V s e) as so eqn:St. destruct so as [s1 o]. cbn [fst snd] in *. symmetry in St.
+    set (eos := combine es (snd (run V s1 es))) in *.
+    assert (Close : forall h,
+              fifo_l b (regs s1) = fifo_l b (regs s) ++ h ->
+              waited b ((e, o) :: eos) = waited b eos ->
+              expect b (map info (regs s)) (nbid s) ((e, o) :: eos) = h ++ expect b (map info (regs s1)) (nbid s1) eos ->
+              exists q, waited b ((e, o) :: eos) ++ q =
+                        fifo_l b (regs s) ++ expect b (map info (regs s)) (nbid s) ((e, o) :: eos) /\
+                        (forall x, get_barrier V b (regs (final s1 es)) = Some x -> q = map tv (b_fifo x))).
+    { intros h F W X. exists q'. split; [|exact Fin]. rewrite W, X, Eq, F. now rewrite <- app_assoc. }
+    destruct e as [r c|k v|k v|b'|h|b']; cbn -[sset sget rels] in St.
+    + (* Build *)
+      inversion St; subst s1 o. apply (Close []).
+      * rewrite app_nil_r. cbn. unfold fifo_l. rewrite get_barrier_app.
+        destruct (get_barrier V b (regs s)) as [y|] eqn:G; [reflexivity|]. cbn.
+        destruct (nbid s =? b); reflexivity.
+      * reflexivity.
+      * cbn. now rewrite map_app.
+    + (* Trigger *)
+      pose proof (first_match_spec (regs s) v) as FS.
+      destruct (sget (srcs s) k) eqn:K;
+        try (inversion St; subst s1 o; apply (Close []); [now rewrite app_nil_r|reflexivity|reflexivity]).
+      destruct (first_match V (regs s) v) as [x|] eqn:M.
+      * apply first_match_in in M as [Mi _].
+        assert (Ex : exists y, In y (regs s) /\ b_id y = b_id x) by eauto.
+        destruct (b_react x) eqn:R; inversion St; subst s1 o.
+        -- apply (Close (hit b (Some (b_id x)) (ntid s) v)).
+           ++ cbn. rewrite (fifo_l_upd_app _ _ _ _ Ex). unfold hit, tv. cbn. reflexivity.
+           ++ reflexivity.
+           ++ cbn. unfold dest. rewrite FS, upd_fifo_info. reflexivity.
+        -- apply (Close (hit b (Some (b_id x)) (ntid s) v)).
+           ++ cbn. rewrite (fifo_l_upd_app _ _ _ _ Ex). unfold hit, tv. cbn. reflexivity.
+           ++ reflexivity.
+           ++ cbn. unfold dest. rewrite FS, upd_fifo_info. reflexivity.
+        -- apply (Close []); [now rewrite app_nil_r|reflexivity|].
+           cbn. unfold dest. rewrite FS. reflexivity.
+      * inversion St; subst s1 o. apply (Close []); [now rewrite app_nil_r|reflexivity|].
+        cbn. unfold dest. rewrite FS. reflexivity.
+    + (* TriggerNoop *)
+      pose proof (first_match_spec (regs s) v) as FS.
+      destruct (sget (srcs s) k) eqn:K;
+        try (inversion St; subst s1 o; apply (Close []); [now rewrite app_nil_r|reflexivity|reflexivity]).
+      destruct (first_match V (regs s) v) as [x|] eqn:M.
+      * apply first_match_in in M as [Mi _].
+        assert (Ex : exists y, In y (regs s) /\ b_id y = b_id x) by eauto.
+        destruct (b_react x) eqn:R; inversion St; subst s1 o.
+        -- apply (Close (hit b (Some (b_id x)) (ntid s) v)).
+           ++ cbn. rewrite (fifo_l_upd_app _ _ _ _ Ex). unfold hit, tv. cbn. reflexivity.
+           ++ reflexivity.
+           ++ cbn. unfold dest. rewrite FS, upd_fifo_info. reflexivity.
+        -- apply (Close []); [now rewrite app_nil_r|reflexivity|].
+           cbn. unfold dest. rewrite FS. reflexivity.
+        -- apply (Close []); [now rewrite app_nil_r|reflexivity|].
+           cbn. unfold dest. rewrite FS. reflexivity.
+      * inversion St; subst s1 o. apply (Close []); [now rewrite app_nil_r|reflexivity|].
+        cbn. unfold dest. rewrite FS. reflexivity.
+    + (* Wait *)
+      destruct (get_barrier V b' (regs s)) as [x|] eqn:G;
+        [|inversion St; subst s1 o; apply (Close []); [now rewrite app_nil_r|reflexivity|reflexivity]].
+      destruct (b_fifo x) as [|en rest] eqn:F;
+        [inversion St; subst s1 o; apply (Close []); [now rewrite app_nil_r|reflexivity|reflexivity]|].
+      inversion St; subst s1 o. clear Close. cbn -[sset sget rels] in Eq, Fin. rewrite upd_fifo_info in Eq.
+      exists q'. split; [|exact Fin].
+      cbn. destruct (b' =? b) eqn:E.
+      * apply N.eqb_eq in E. subst b'. cbn. fold eos. rewrite Eq. unfold fifo_l. rewrite get_barrier_upd, G, N.eqb_refl. cbn.
+        rewrite F. cbn. reflexivity.
+      * cbn. fold eos. rewrite Eq. unfold fifo_l. rewrite get_barrier_upd. destruct (get_barrier V b (regs s)); [|reflexivity].
+        now rewrite E.
+    + (* DropHandle *)
+      destruct (get_handle V h (handles s)); inversion St; subst s1 o;
+        (apply (Close []); [now rewrite app_nil_r|reflexivity|reflexivity]).
+    + (* DropBarrier *)
+      destruct (get_barrier V b' (regs s)) as [x|] eqn:G.
+      * inversion St; subst s1 o. clear Close. cbn -[sset sget rels] in Eq, Fin.
+        destruct (b' =? b) eqn:E.
+        -- apply N.eqb_eq in E. subst b'.
+           assert (Dead : get_barrier V b (filter (fun y => negb (b_id y =? b)) (regs s)) = None)
+             by (rewrite get_barrier_filter; now rewrite N.eqb_refl).
+           assert (Lt : b < nbid s) by (apply get_barrier_in in G as [Gi <-]; now apply (rk_lt _ OK)).
+           assert (Ex0 : expect b (map info (filter (fun y => negb (b_id y =? b)) (regs s))) (nbid s) eos = []).
+           { apply expect_dead; [|exact Lt]. rewrite info_ids. intro Hin.
+             apply in_map_iff in Hin as (y & Ey & Hy). exact (get_barrier_none _ _ Dead y Hy Ey). }
+           rewrite Ex0 in Eq. unfold fifo_l in Eq at 1. rewrite Dead in Eq. cbn in Eq.
+           apply app_eq_nil in Eq as [W0 Q0].
+           exists (fifo_l b (regs s)). split.
+           ++ cbn. fold eos. rewrite lv_drop_info, Ex0, W0. now rewrite app_nil_r.
+           ++ intros y Gy. exfalso. rewrite dead_stays in Gy; [discriminate|exact Lt|exact Dead].
+        -- exists q'. split; [|exact Fin]. cbn. fold eos. rewrite lv_drop_info, Eq. f_equal.
+           unfold fifo_l. rewrite get_barrier_filter, E. reflexivity.
+      * inversion St; subst s1 o. apply (Close []); [now rewrite app_nil_r|reflexivity|].
+        cbn. f_equal. unfold lv_drop. apply filter_keep_all. intros [[b0 c0] r0] Hin. cbn.
+        apply negb_true_iff, N.eqb_neq. intro. subst b0.
+        apply in_map_iff in Hin as (y & Ey & Hy). inversion Ey; subst.
+        exact (get_barrier_none _ _ G y Hy eq_refl).
+Qed.
+
+(* ghost trigger ids are handed out in increasing order: every trigger call
+   appears at most once in all expected lists together *)
+Lemma expect_tids b eos : forall s lv nb es,
+  eos = combine es (snd (run V s es)) ->
+  forall tid v, In (tid, v) (expect b lv nb eos) -> ntid s <= tid.
+Proof.
+  induction eos as [|[e o] t IH]; intros s lv nb es E tid v H; [contradiction|].
+  destruct es as [|e' es']; [discriminate|]. rewrite run_cons in E. cbn [snd combine] in E. inversion E; subst.
+  assert (Mono : ntid s <= ntid (fst (step V s e'))).
+  { destruct e' as [r c|k w|k w|b'|h|b']; cbn -[sset sget rels]; try lia.
+    - destruct (sget (srcs s) k); cbn -[sset sget rels]; try lia.
+      destruct (first_match V (regs s) w) as [x|]; cbn -[sset sget rels]; [destruct (b_react x)|]; cbn -[sset sget rels]; lia.
+    - destruct (sget (srcs s) k); cbn -[sset sget rels]; try lia.
+      destruct (first_match V (regs s) w) as [x|]; cbn -[sset sget rels]; [destruct (b_react x)|]; cbn -[sset sget rels]; lia.
+    - destruct (get_barrier V b' (regs s)) as [x|]; cbn; [destruct (b_fifo x)|]; cbn; lia.
+    - destruct (get_handle V h (handles s)); cbn; lia.
+    - destruct (get_barrier V b' (regs s)); cbn; lia. }
+  assert (Rest : forall lv' nb', In (tid, v) (expect b lv' nb' (combine es' (snd (run V (fst (step V s e')) es')))) -> ntid s <= tid).
+  { intros lv' nb' Hin. specialize (IH _ lv' nb' es' eq_refl tid v Hin). lia. }
+  cbn in H. destruct e' as [r c|k w|k w|b'|h|b']; eauto.
+  - destruct (snd (step V s (Trigger k w))) eqn:O; eauto.
+    apply in_app_or in H as [H|H]; [|eauto].
+    cbn -[sset sget rels] in O. destruct (sget (srcs s) k); try discriminate.
+    assert (tid0 = ntid s).
+    { destruct (first_match V (regs s) w) as [x|]; [destruct (b_react x)|]; cbn -[sset sget rels] in O; now inversion O. }
+    subst. unfold hit in H. destruct (dest lv false w); [|contradiction]. destruct (n =? b); [|contradiction].
+    destruct H as [H|[]]. inversion H; subst. lia.
+  - destruct (snd (step V s (TriggerNoop k w))) eqn:O; eauto.
+    apply in_app_or in H as [H|H]; [|eauto].
+    cbn -[sset sget rels] in O. destruct (sget (srcs s) k); try discriminate.
+    assert (tid0 = ntid s).
+    { destruct (first_match V (regs s) w) as [x|]; [destruct (b_react x)|]; cbn -[sset sget rels] in O; now inversion O. }
+    subst. unfold hit in H. destruct (dest lv true w); [|contradiction]. destruct (n =? b); [|contradiction].
+    destruct H as [H|[]]. inversion H; subst. lia.
+Qed.
+
+
+Lemma step_tid s e :
+  match snd (step V s e) with
+  | OTrig tid => tid = ntid s /\ ntid (fst (step V s e)) = ntid s + 1
+  | _ => ntid (fst (step V s e)) = ntid s
+  end.
+Proof.
+  destruct e as [r c|k w|k w|b'|h|b']; cbn -[sset sget rels]; try reflexivity.
+  - destruct (sget (srcs s) k); cbn -[sset sget rels]; try reflexivity.
+    destruct (first_match V (regs s) w) as [x|]; cbn -[sset sget rels]; [destruct (b_react x)|]; cbn -[sset sget rels]; auto.
+  - destruct (sget (srcs s) k); cbn -[sset sget rels]; try reflexivity.
+    destruct (first_match V (regs s) w) as [x|]; cbn -[sset sget rels]; [destruct (b_react x)|]; cbn -[sset sget rels]; auto.
+  - destruct (get_barrier V b' (regs s)) as [x|]; cbn; [destruct (b_fifo x)|]; reflexivity.
+  - destruct (get_handle V h (handles s)); reflexivity.
+  - destruct (get_barrier V b' (regs s)); reflexivity.
+Qed.
+
+Definition tid_lt (a c : N * V) : Prop := fst a < fst c.
+
+(* trigger ids in an expected list are strictly increasing: no trigger call is
+   expected (hence, by report_main, reported) twice *)
+Lemma expect_sorted b es : forall s lv nb,
+  StronglySorted tid_lt (expect b lv nb (combine es (snd (run V s es)))).
+Proof.
+  induction es as [|e es IH]; intros s lv nb; [constructor|].
+  rewrite run_cons. cbn [snd combine].
+  pose proof (step_tid s e) as T.
+  assert (Rest : forall lv' nb' tid v,
+            In (tid, v) (expect b lv' nb' (combine es (snd (run V (fst (step V s e)) es)))) ->
+            ntid (fst (step V s e)) <= tid).
+  { intros lv' nb' tid v. eapply expect_tids. reflexivity. }
+  assert (Hit : forall d tid v lv' nb', tid = ntid s -> ntid (fst (step V s e)) = ntid s + 1 ->
+            StronglySorted tid_lt (hit b d tid v ++ expect b lv' nb' (combine es (snd (run V (fst (step V s e)) es))))).
+  { intros d tid v lv' nb' E1 E2. unfold hit. destruct d as [b0|]; [|apply IH]. destruct (b0 =? b); [|apply IH].
+    cbn. constructor; [apply IH|]. rewrite Forall_forall. intros [t w] Hin. apply Rest in Hin. unfold tid_lt. cbn. lia. }
+  cbn. destruct e as [r c|k w|k w|b'|h|b']; try apply IH.
+  - destruct (snd (step V s (Trigger k w))) eqn:O; try apply IH. destruct T. now apply Hit.
+  - destruct (snd (step V s (TriggerNoop k w))) eqn:O; try apply IH. destruct T. now apply Hit.
+Qed.
+
+End WithV.
